@@ -226,6 +226,42 @@ def run_variant(v: Variant, sources: dict[str, str], pid: str, base_viol: set[st
         return 'ok', 'verdicts unchanged', []
 
 
+_PAR: dict = {}
+
+
+def _par_one(i: int):
+    v = _PAR['variants'][i]
+    try:
+        status, msg, _nv = run_variant(v, _PAR['sources'], _PAR['pid'], _PAR['base_viol'], _PAR['base_err'])
+    except Exception as ex:   # never lose a variant silently
+        status, msg = 'FAILED', f'self-test machinery raised {type(ex).__name__}: {ex}'
+    return i, status, msg
+
+
+def _run_parallel(mine: list, sources: dict, pid: str, base_viol: set, base_err: set) -> list[tuple[str, str]]:
+    """Variants are independent in-memory analyses: spread them over the cores (fork, so nothing is pickled but the
+    index and the two result strings); sequential fallback if no pool can be created."""
+    import multiprocessing
+    jobs = min(len(mine), int(os.environ.get('LT_STATIC_JOBS', '0')) or (os.cpu_count() or 1))
+    out: list = [None] * len(mine)
+    if jobs > 1 and len(mine) > 3:
+        _PAR.update(variants=mine, sources=sources, pid=pid, base_viol=base_viol, base_err=base_err)
+        try:
+            ctx = multiprocessing.get_context('fork')
+            with ctx.Pool(jobs) as pool:
+                for i, status, msg in pool.imap_unordered(_par_one, range(len(mine)), chunksize=1):
+                    out[i] = (status, msg)
+        except (OSError, ValueError):
+            out = [None] * len(mine)
+        finally:
+            _PAR.clear()
+    for i, v in enumerate(mine):
+        if out[i] is None:
+            status, msg, _nv = run_variant(v, sources, pid, base_viol, base_err)
+            out[i] = (status, msg)
+    return out
+
+
 def run_for_property(pid: str, program: Program, seed: int = 0, say: Callable[[str], None] = print) -> dict:
     """Thorough tier: evaluate this property's variant corpus against the current tree."""
     from . import runner
@@ -238,8 +274,8 @@ def run_for_property(pid: str, program: Program, seed: int = 0, say: Callable[[s
     res = {'ok': 0, 'FAILED': 0, 'skipped': 0}
     obs: list[Ob] = []
     details = []
-    for v in mine:
-        status, msg, _nv = run_variant(v, sources, pid, base_viol, base_err)
+    outcomes = _run_parallel(mine, sources, pid, base_viol, base_err)
+    for v, (status, msg) in zip(mine, outcomes):
         res[status] += 1
         details.append({'variant': v.name, 'kind': v.kind, 'status': status, 'detail': msg})
         if status == 'FAILED':
